@@ -418,6 +418,10 @@ func postC20(cs []*Ctx, r *Report, tier string) {
 					inClosure = true
 				}
 			}
+			if inClosure && !foreign && c.inlinedUintReadProved(closure, e.File, e.Line) {
+				r.ok("R1", "inlined-bce:"+rel+":"+e.Kind, fmt.Sprintf("%s:%d", rel, e.Line), "T6: the check sits in an inlined encoding/binary Uint16/Uint32 read of x[c:]; a dominating guard fixes len(x) so that at least 2/4 bytes remain")
+				continue
+			}
 			if inClosure || foreign {
 				r.bad("R1", "unmatched-bce:"+rel+":"+e.Kind, fmt.Sprintf("%s:%d", rel, e.Line), "the compiler reports an unproven bounds check on the decode path that corresponds to no analysed SSA site")
 			}
@@ -987,4 +991,78 @@ func (c *Ctx) helperValidatedBound(sl *ssa.Slice) (string, bool) {
 		return "", false
 	}
 	return fmt.Sprintf("T5: the variable part of the bound is the result of %s(x), whose error was tested, and every non-error return of it is guarded by len(x) >= c + result with c >= %d, result zero-extended into int", g.Name(), cst), true
+}
+
+// inlinedUintReadProved: T6. The compiler inlines binary.BigEndian.Uint16/Uint32 and reports the bounds check of the
+// inlined body at the call's line. Argument: the operand is x[c:] (c constant) and a guard that dominates the call
+// fixes len(x) == K or len(x) >= K with K - c >= the number of bytes read.
+func (c *Ctx) inlinedUintReadProved(closure map[*ssa.Function]bool, file string, line int) bool {
+	proved, seen := true, false
+	for f := range closure {
+		allInstrs(f, func(i ssa.Instruction) {
+			call, ok := i.(*ssa.Call)
+			if !ok {
+				return
+			}
+			p := c.Prog.Fset.Position(call.Pos())
+			if p.Filename != file || p.Line != line {
+				return
+			}
+			need := int64(0)
+			switch calleeName(&call.Call) {
+			case "(encoding/binary.bigEndian).Uint16", "(encoding/binary.littleEndian).Uint16":
+				need = 2
+			case "(encoding/binary.bigEndian).Uint32", "(encoding/binary.littleEndian).Uint32":
+				need = 4
+			default:
+				return
+			}
+			seen = true
+			arg := call.Call.Args[len(call.Call.Args)-1]
+			sl, ok := arg.(*ssa.Slice)
+			if !ok || sl.High != nil {
+				proved = false
+				return
+			}
+			lo := int64(0)
+			if sl.Low != nil {
+				k, ok := constInt(sl.Low)
+				if !ok {
+					proved = false
+					return
+				}
+				lo = k
+			}
+			okG := false
+			for _, g := range guardsOf(call.Block()) {
+				x, y, op, isCmp := cmpGuard(g)
+				if !isCmp {
+					continue
+				}
+				isLen := func(v ssa.Value) bool {
+					v = stripConv(v)
+					cl, ok := v.(*ssa.Call)
+					if !ok {
+						return false
+					}
+					b, ok := cl.Call.Value.(*ssa.Builtin)
+					return ok && b.Name() == "len" && cl.Call.Args[0] == sl.X
+				}
+				if isLen(x) && (op == token.EQL || op == token.GEQ) {
+					if k, ok := constInt(stripConv(y)); ok && k-lo >= need {
+						okG = true
+					}
+				}
+				if isLen(x) && op == token.GTR {
+					if k, ok := constInt(stripConv(y)); ok && k+1-lo >= need {
+						okG = true
+					}
+				}
+			}
+			if !okG {
+				proved = false
+			}
+		})
+	}
+	return seen && proved
 }
